@@ -767,7 +767,34 @@ def partial_frame_reads(F, R):
     R.ob('C10.consume-implies-state', 'utils::decode_variable_length|ran-out-of-bytes=>None', ok, 'the tolerant reader does not map the strict reader\'s MalformedPacket (no more bytes) to Ok(None)', w.loc(0))
 
 
+def payload_failed_only_at_teardown(F, R):
+    """The payload sender slot is per connection: it belongs to whichever PUBLISH is streaming right now. Inside the protocol
+    dispatchers drop_payload(..) - which fails that reader - therefore runs only where the connection is being torn down:
+    a drop_sink / close / force_close precedes it, or follows it on every way out. Failing the slot on a path that keeps the
+    connection (a handler error that becomes a negative PUBACK) hands another publish's reader an error instead of its bytes."""
+    n = 0
+    for b in F.find(r'^(<)?v[35]::(client::)?dispatcher::'):
+        sites = [bi for bi, t in b.calls_to(r'::drop_payload$')]
+        if not sites:
+            continue
+        td = {bi for bi, t in b.calls_to(r'MqttShared::(drop_sink|close|force_close)$|::sink::MqttSink::(close|force_close)$')}
+        errs = {bi for bi, j, s in agg_sites(b, r'^std::result::Result$', 'Err') if s['lhs']['l'] in b.ret_locals}
+        for x in sites:
+            n += 1
+            if any(t in b.dom.get(x, ()) for t in td):
+                ok = True
+            else:
+                # ways out that neither tear down nor report an error (which stops the dispatcher)
+                outs = set(b.returns()) & b.reachable_after(x, avoid=td | errs)
+                ok = not outs
+            top = re.sub(r'(::\{(closure|inl)#\d+\})+$', '', b.path)
+            R.ob('C10.feed', '%s|drop_payload|only-where-the-connection-ends' % top, ok,
+                 'the streaming payload reader is failed on a path that keeps the connection open: the payload of another PUBLISH that is still arriving is lost although every byte was delivered', b.loc(x))
+    R.floor('C10.feed', 'drop_payload sites in the dispatchers', n, 6)
+
+
 def run(F, R):
+    payload_failed_only_at_teardown(F, R)
     read_all(F, R)
     partial_frame_reads(F, R)
     for ver in ('v5', 'v3'):
